@@ -359,7 +359,7 @@ func checkC10(c CaseC10, x *hx.Ctx) (fail *hx.Failure) {
 			}
 			last = d
 			early := errors.Is(err, gots.ErrSCTE35DuplicateDescriptor) || errors.Is(err, gots.ErrVSSSignalIdNotFound) || errors.Is(err, gots.ErrSCTE35UnsupportedSpliceCommand)
-			lastAccepted = !early
+			lastAccepted = err == nil // a descriptor that was rejected the first time (whatever the error) need only be rejected again
 			if early {
 				// only for duplicates does the statement promise an unchanged open list; for the other early
 				// rejections the harness merely has to stay in step, which it can if nothing was closed or opened
@@ -409,10 +409,10 @@ func checkC10(c CaseC10, x *hx.Ctx) (fail *hx.Failure) {
 					inOpen = true
 				}
 			}
-			if inOpen || d.abs.Type == 0x13 {
-				d.status = 1 // a breakaway is held open but hidden from Open()
+			if inOpen || (d.abs.Type == 0x13 && err == nil) {
+				d.status = 1 // an accepted breakaway is held open but hidden from Open(); a rejected one need not be held at all
 			}
-			if d.abs.Type == 0x13 {
+			if d.abs.Type == 0x13 && (err == nil || inOpen) {
 				sawBreakaway, pendingBreakaway = true, true
 			}
 			if d.abs.Type == 0x14 {
@@ -434,8 +434,9 @@ func checkC10(c CaseC10, x *hx.Ctx) (fail *hx.Failure) {
 					}
 				}
 				for _, s := range seen {
-					if s.status == 1 && !shown[s.obj] && (err == nil || s.abs.Type != 0x13) {
-						// (a breakaway is hidden from Open() anyway: it only counts as gone when the resumption was accepted)
+					if s.status == 1 && !shown[s.obj] && s.abs.Type != 0x13 {
+						// (a breakaway is hidden from Open() anyway: invisibility says nothing about it - an outer breakaway may stay
+						// pending behind the one the resumption ended; only the most recent one was marked gone above)
 						s.status = 3
 					}
 				}
